@@ -67,6 +67,28 @@ theorem C08_pill_is_ordered (s : St) (m r : ModId) (md : Mod) (q : List Msg)
   exact ⟨c, md', h1, h2, h3⟩
 
 
+open Lm.Props.C02 in
+/-- **Publications reach a subscriber in the order in which they were published**: two consecutive `m_mod_ps_publish` calls on a
+topic that a RUNNING or PAUSED module is subscribed to append their copies to its mailbox in that order, behind what was there -/
+theorem C08_publications_keep_order (s : St) (m1 m2 : Msg) (t : String) (h1 : m1.topic = some t) (h2 : m2.topic = some t)
+    (k : ModId) (md : Mod) (sub : SrcId) (q : List Msg)
+    (hm : s.mods[k]? = some md) (hk : k ∈ s.tableOrder) (he : md.state = .running ∨ md.state = .paused)
+    (hf : fetchSub s md t = some sub) (hp : md.pipe = some q) (hroom : q.length + 1 + md.pipeSkip < pipeCap) :
+    ∃ c1 c2 md', (tellPubsub (tellPubsub s m1 none) m2 none).mods[k]? = some md' ∧ md'.pipe = some (q ++ [c1, c2]) ∧
+      c1.payload = m1.payload ∧ c2.payload = m2.payload := by
+  have htab := publish_keeps_table_order s m1 t h1
+  rw [C02_publish_is_the_table_walk s m1 t h1] at htab
+  rw [C02_publish_is_the_table_walk (tellPubsub s m1 none) m2 t h2, C02_publish_is_the_table_walk s m1 t h1, htab]
+  have hn := C02_table_walk_visits_once s
+  have e1 := pubWalk_explicit m1 t s.tableOrder s hn k md sub q hm hk he hf hp (by omega)
+  have hs := pubWalk_srcs m1 t s.tableOrder s
+  have hf2 : fetchSub (pubWalk s m1 t s.tableOrder) { md with pipe := some (q ++ [{ m1 with sub := some sub, rcpt := some k }]) } t = some sub := by
+    rw [fetchSub_congr s _ _ t hs.1 hs.2]
+    unfold fetchSub at hf ⊢
+    exact hf
+  have e2 := pubWalk_explicit m2 t s.tableOrder _ hn k _ sub (q ++ [{ m1 with sub := some sub, rcpt := some k }]) e1 hk he hf2 rfl (by simp; omega)
+  exact ⟨{ m1 with sub := some sub, rcpt := some k }, { m2 with sub := some sub, rcpt := some k }, _, e2, by simp, rfl, rfl⟩
+
 /-- tie A: the guard prefixes of the entry points this property is about, re-extracted from the source on every run,
 are the ones the model transcribes (`Lm.Inst.CoreTie`) -/
 theorem C08_guards_in_source :
